@@ -928,7 +928,7 @@ def run(r, n_override=None):
     nproc = min(16, os.cpu_count() or 4)
     chunks = [cases[i::nproc] for i in range(nproc)]
     import jointgraph
-    n_groups = {"quick": 6, "thorough": 48}[r.tier] * (1 if n_override is None else 2)
+    n_groups = {"quick": 6, "thorough": 32}[r.tier] * (1 if n_override is None else 2)
     k0 = r.rng.randrange(15)
     groups = [b["case"] for b in r.corpus() if b["case"].get("stream") == "joint-graph"] + \
         [gen_jointgraph(r.rng, k0 + g, [jointgraph.MODES[(k0 + g + i) % 3] for i in range(2 if r.tier == "quick" else 3)],
